@@ -97,11 +97,12 @@ class Impl:
     def do(self, op):
         start = len(self.log)
         try:
-            if op[0] == 'line':
+            if op[0] in ('line', 'raw'):
                 self.feed(render_line(op)[0])
             else:
                 self.clock.advance(op[1])
-            self.clock.advance(0)
+            if op[0] != 'raw':
+                self.clock.advance(0)
         except Exception as e:
             self.log.append('exc ' + type(e).__name__)
         return self.log[start:]
@@ -198,6 +199,11 @@ def corpus():
         {'ops': [['line', 1, 1, 'utc', 100, 100], ['line', 1, 'error', 'error', 100, 100], ['advance', 200], ['line', 2, 'error', 'error', 5, 5]], 'share': False},
         {'ops': [['line', 1, 1, 'utc', 10, 10], ['advance', 10], ['line', 1, 2, 'utc', 50, 50], ['advance', 1]], 'share': False},
         {'ops': [['line', 1, 1, 'utc', 100, 7], ['line', 1, 2, 'local3', 150, None], ['advance', 120]], 'share': False},
+        # a mapping that is already over when it arrives, replaced in the same read (no turn of the reactor in between) by a
+        # never-expiring / later one: announced once, and the first mapping's timer must not take the new one away
+        {'ops': [['raw', 1, 1, 'utc', -5, -5], ['line', 1, 2, 'never3', None, None], ['advance', 0], ['advance', 100]], 'share': False},
+        {'ops': [['raw', 1, 1, 'utc', 0, 0], ['raw', 1, 1, 'utc', 50, 50], ['advance', 0], ['advance', 49], ['advance', 1]], 'share': False},
+        {'ops': [['raw', 1, 1, 'utc', 10, 10], ['raw', 1, 'error', 'error', 10, 10], ['line', 1, 2, 'never3', None, None], ['advance', 20]], 'share': False},
     ]
 
 
@@ -213,7 +219,8 @@ def gen_history(rng, share, maxlen=30):
             tloc = texp + rng.choice([0, 0, -3600, 7200])
             if form in ('never3', 'never-cached', 'never-utc'):
                 texp = tloc = None
-            ops.append(['line', n, 'error' if form == 'error' else a, form, texp, tloc])
+            # `raw`: the next input arrives in the same read — the reactor (and so the clock) gets no turn in between
+            ops.append(['raw' if rng.random() < 0.2 else 'line', n, 'error' if form == 'error' else a, form, texp, tloc])
         else:
             dt = rng.choice(ADVANCES)
             now += dt
@@ -227,7 +234,7 @@ def boot_prefix(c):
     in the same reply, by another line for its name (one at a time it would be announced and expire first)"""
     n = 0
     ops = c['ops']
-    while n < len(ops) and ops[n][0] == 'line':
+    while n < len(ops) and ops[n][0] == 'line':   # (a `raw` line ends the prefix)
         if any(o[1] == ops[n][1] and o[4] is not None and o[4] <= 0 and o[2] != 'error' for o in ops[:n]):
             break
         n += 1
@@ -254,9 +261,9 @@ def driver_lines(c):
     lines = ['reset']
     per_op = 1 + len(NAMES) + len(all_addrs())
     for op in c['ops']:
-        if op[0] == 'line':
+        if op[0] in ('line', 'raw'):
             _, toks = render_line(op)
-            lines.append('line %d %s %s' % (op[1], 'error' if op[2] == 'error' else op[2], ' '.join(toks)))
+            lines.append('%s %d %s %s' % (op[0], op[1], 'error' if op[2] == 'error' else op[2], ' '.join(toks)))
         else:
             lines.append('advance %d' % op[1])
         for n in NAMES:
@@ -299,12 +306,15 @@ def run_cases(cases, drv, tier):
         in_h = not c['share']
         nlines = {}
         for op in c['ops']:
-            if op[0] == 'line':
+            if op[0] in ('line', 'raw'):
                 nlines[op[1]] = nlines.get(op[1], 0) + 1
         expired = any(o.startswith('expired') for st in im for o in st[0])
-        forms = sorted({op[3] for op in c['ops'] if op[0] == 'line'})
+        forms = sorted({op[3] for op in c['ops'] if op[0] in ('line', 'raw')})
+        stale_then_again = any(a[0] == 'raw' and a[4] is not None and b[0] in ('line', 'raw') and b[1] == a[1]
+                               for a, b in zip(c['ops'], c['ops'][1:]))
         tags = ['len=%d' % min(len(c['ops']) // 10 * 10, 30), 'expiry' if expired else 'no-expiry', 'share' if c['share'] else 'noshare',
-                ('via-torstate-boot=%d' % c['boot']) if 'boot' in c else 'direct'] + ['form:' + f for f in forms]
+                ('via-torstate-boot=%d' % c['boot']) if 'boot' in c else 'direct',
+                'same-read-remap' if stale_then_again else 'no-same-read-remap'] + ['form:' + f for f in forms]
         res.append(Result(c, im, model, spec if in_h else None, in_h=in_h,
                           nontrivial=expired or any(v >= 2 for v in nlines.values()), tags=tags))
     return res
